@@ -879,6 +879,9 @@ def _record(ctx, case, res, scratch, group):
 def run(ctx):
     ctx.rule = ("case = (pair of created directory trees, dir-mode options); trees: depth <= 4, 0-25 files per side, "
                 "equal/differing/unreadable/unsupported/one-sided files, glob characters and equal basenames in names; "
+                "(phase 6 G, directed) directory spellings (trailing slash, cwd-relative, ./, .., //) x tree relations (side by side, "
+                "identical, one inside the other), prefix names / file-vs-directory / upper-case extensions / depth 8 / empty "
+                "directories, 150-400 files, all pass-through options incl. .pvd sequences in the trees, re-runs on the same paths; "
                 "non-trivial = the accounting has >= 2 distinct classes, or a non-passing class, or filtered orphans; "
                 "distinct = distinct (files with contents, options)")
     ctx.assumptions += [
